@@ -1324,7 +1324,6 @@ package server
 //@ func (*TextServerProtocol).ProcessLockResultCommand
 //@   requires self != nil && lockCommand != nil
 //@   ensures C03.text.cleared: forall(k, 0, 16, self.lockRequestId[k] == 0)
-//@   ensures C13.text.cleared: true
 //@   modifies all
 //@ func (*TextServerProtocol).ProcessLockResultCommandLocked
 //@   requires self != nil && command != nil
